@@ -45,13 +45,36 @@ def gen_session(rng, quick):
 
     cur, nsel = None, 0
     ff_unset = True          # is the parameter full_fraction None when the next call starts?
+    ff_bad = False           # ... or an invalid value left by a rejected call?
+    force = None             # kind of the next call (after a rejected cold fit: mostly a warm start)
     ncalls = rng.randint(2, 5)
     while len(calls) < ncalls:
         r = rng.random()
         ff = rng.choice(["keep", "keep", None] + [[f.numerator, f.denominator] for f in FFS])
         if not calls and ff == "keep":
             ff = None if rng.random() < 0.3 else [1, rng.choice([1, 2, 4, 128])]
-        if cur is None or r < 0.45:
+        if ff == "keep" and ff_bad:
+            ff = [1, rng.choice([1, 2, 4, 128])]          # the user corrects the parameter
+        if cur is not None and force is None and rng.random() < 0.2:
+            # a cold fit REJECTED for its switching-point parameters (on the same data, other data of the
+            # same size, or another shape): since /repo ac09377 it must leave the object untouched
+            q = rng.random()
+            di = cur if q < 0.4 else new_data(same_n=(q < 0.8))
+            nn = len(data[di]["X"])
+            if rng.random() < 0.6:
+                badff, badnt, expect = rng.choice([2.0, 0.0, -0.5, 1.5]), 4, "ValueError"
+            else:
+                badff = None
+                badnt, expect = rng.choice([(0, "ValueError"), (-2, "ValueError"), (2.5, "TypeError")])
+            calls.append(dict(kind="cold", data=di, ff="raw", badff=badff, ntrial=badnt, rejected_ff=True,
+                              nts=rng.randint(1, nn), init=rng.randrange(nn), expect=expect,
+                              clock=[rng.random() < 0.5 for _ in range(7)]))
+            ff_bad, ff_unset = badff is not None, badff is None
+            force = "warm" if rng.random() < 0.7 else "cold"
+            ncalls = max(ncalls, len(calls) + 1)          # the history continues after the rejection
+            continue
+        forced, force = force, None
+        if cur is None or forced == "cold" or (forced is None and r < 0.45):
             # cold fit: mostly on other data with the SAME number of samples (what a stale
             # per-sample attribute survives), sometimes another shape, sometimes the same data
             q = rng.random()
@@ -74,6 +97,7 @@ def gen_session(rng, quick):
                               ntrial=rng.choice([1, 2, 4, 4])))
             # a cold fit that gets as far as _init_greedy_search stores the calibrated value
             ff_unset = (ff is None or (ff == "keep" and ff_unset)) and expect == "ValueError"
+            ff_bad = False
             if expect == "ok":
                 cur, nsel = di, k
             elif expect == "IndexError":
@@ -85,7 +109,14 @@ def gen_session(rng, quick):
                 # full_fraction=None is only calibrated by a COLD fit (which stores the result in the
                 # parameter); a warm start with the parameter reset to None raises TypeError — not generated
                 ff = [1, rng.choice([1, 2, 4, 128])]
-            ff_unset = False
+            ff_unset = ff_bad = False
+            if forced == "warm" and nsel < nn:
+                # after a rejected cold fit: a warm start that really continues the selection
+                k = rng.randint(nsel + 1, nn)
+                calls.append(dict(kind="warm", data=cur, ff=ff, nts=_nts_for(rng, nn, k), expect="ok",
+                                  after_rejected=True))
+                nsel = k
+                continue
             if bad < 0.06 and nsel > 1:
                 k = rng.randint(1, nsel - 1)
                 calls.append(dict(kind="warm", data=cur, ff=ff, nts=k, expect="ValueError"))
@@ -155,7 +186,9 @@ def run_session(case):
         sp = ds["sp"]
         X = np.array(ds["X"], dtype=float) * (2.0 ** sp)
         u2, u1 = 2.0 ** (-2 * sp), 2.0 ** (-sp)
-        if c["ff"] != "keep":
+        if c["ff"] == "raw":
+            sel.full_fraction = c["badff"]
+        elif c["ff"] != "keep":
             sel.full_fraction = None if c["ff"] is None else c["ff"][0] / c["ff"][1]
         sel.n_to_select = _nts_py(c["nts"])
         if c["kind"] == "cold":
@@ -217,7 +250,12 @@ def session_coq(case, res):
         n = len(X)
         ff = r["ff"] or [1, 1]
         br = "(br_fraction %d%%nat %s %s)" % (n, C.Zl(ff[0]), C.Zl(ff[1]))
-        if c["kind"] == "cold":
+        if c.get("rejected_ff"):
+            bf, bn = c["badff"], c["ntrial"]
+            ffc = "FFNone" if bf is None else "(FFReal %s %s)" % (C.Zl(Fraction(bf).numerator), C.Zl(Fraction(bf).denominator))
+            ntc = "(NTInt %s)" % C.Zl(bn) if isinstance(bn, int) else "NTOther"
+            call = "VColdFF %s %s %s %s %d%%nat %s" % (C.zmat(X), ffc, ntc, br, c["init"], _nts_coq(n, c["nts"]))
+        elif c["kind"] == "cold":
             i0 = r["sel"][0] if "error" not in r else (c["init"] if isinstance(c["init"], int) else 0)
             call = "VCold %s %s %d%%nat %s" % (C.zmat(X), br, i0, _nts_coq(n, c["nts"]))
         else:
@@ -295,7 +333,9 @@ def float_run_problem(X, sel, table, label, rel=1e-9):
 
 def session_oracle(case, res):
     for ci, (c, r) in enumerate(zip(case["calls"], res["calls"])):
-        label = "call %d (%s fit%s)" % (ci, c["kind"], ", earlier fits on the same object" if ci else "")
+        label = "call %d (%s fit%s%s)" % (ci, c["kind"], ", earlier fits on the same object" if ci else "",
+                                          ", right after a cold fit that was rejected for its switching-point parameters"
+                                          if c.get("after_rejected") else "")
         if r.get("calibrated") and r.get("ff"):
             ff = Fraction(r["ff"][0], r["ff"][1])
             if not (0 < ff <= 1):
@@ -324,6 +364,9 @@ def session_oracle(case, res):
         else:
             if "error" not in r:
                 return "%s: expected %s, but fit returned" % (label, c["expect"])
+            if c.get("rejected_ff") and r["error"] != c["expect"]:
+                return "%s: expected %s for full_fraction=%r, n_trial_calculation=%r, got %s: %s" % (
+                    label, c["expect"], c["badff"], c["ntrial"], r["error"], r.get("error_msg"))
     return None
 
 
